@@ -19,7 +19,10 @@ use crate::chess_move::standard::StandardChessMove;
 use crate::evaluate::{player_is_in_check, player_is_in_checkmate};
 use common::bitboard::bitboard::Bitboard;
 use common::bitboard::square::*;
+#[cfg(not(chess_verif))]
 use lru::LruCache;
+#[cfg(chess_verif)]
+use crate::verif_hooks::LruCache;
 #[cfg(not(chess_verif_shuttle))]
 use rayon::prelude::*;
 #[cfg(chess_verif_shuttle)]
@@ -49,14 +52,6 @@ pub struct MoveGenerator {
 
 impl Default for MoveGenerator {
     fn default() -> Self {
-        #[cfg(chess_verif)]
-        if let Some(capacity) = crate::verif_hooks::lru_capacity() {
-            return Self {
-                targets: Targets::default(),
-                cache: LruCache::new(NonZeroUsize::new(capacity).unwrap()),
-                hit_count: 0,
-            };
-        }
         Self {
             targets: Targets::default(),
             // Potentially a lot of memory, but helpful for high depths
